@@ -213,6 +213,30 @@ def _site_statuses() -> dict[str, str]:
     return res
 
 
+def _unary_budget_guard() -> dict[str, bool]:
+    """`_app_unary.py`: every `_enforce_response_budgets(...)` call that can REPLACE the response body sits under
+    `if status == "ok":` (so the EXCEPTION batch of an implementation error is never measured against a cap and swapped
+    for a cap error), and the external-cap pre-flight that writes its own error batch sits in the try body after the
+    implementation call returned (an exception skips it)."""
+    t = ast.parse((REPO / "vgi_rpc/http/server/_app_unary.py").read_text())
+    calls = 0
+    guarded = 0
+
+    def walk(node: ast.AST, under_ok: bool) -> None:
+        nonlocal calls, guarded
+        for child in ast.iter_child_nodes(node):
+            u = under_ok
+            if isinstance(node, ast.If) and child in node.body and ast.unparse(node.test) in ("status == 'ok'",):
+                u = True
+            if isinstance(child, ast.Call) and ast.unparse(child.func) == "_enforce_response_budgets":
+                calls += 1
+                guarded += 1 if u else 0
+            walk(child, u)
+
+    walk(t, False)
+    return {"only_on_success": calls >= 1 and calls == guarded}
+
+
 def _resource_layer() -> dict[str, bool]:
     """`_resources.py`: every path of the three RPC resources ends in `_set_http_status` / `_set_error_response`,
     the stream resources reset the context variable to OK before dispatch and read it afterwards."""
@@ -255,6 +279,7 @@ def emit() -> dict[str, str]:
     sh = _set_http_status(ast.parse((REPO / "vgi_rpc/http/server/_responses.py").read_text()))
     sites = _site_statuses()
     rl = _resource_layer()
+    bg = _unary_budget_guard()
 
     def code(name: str) -> int:
         return int(getattr(HTTPStatus, name).value) if name and hasattr(HTTPStatus, name) else 0
@@ -319,6 +344,9 @@ def markerValue : String := {q(str(sh["value"]))}
 @[reducible] def initRaiseStatus : Nat := {code(sites["init"])}
 @[reducible] def exchangeRaiseStatus : Nat := {code(sites["exchange"])}
 @[reducible] def producerRaiseStatus : Nat := {code(sites["producer"])}
+/-- `_run_unary_sync`: the post-flush `_enforce_response_budgets` check (which discards the body and answers a cap error
+instead) runs only under `if status == "ok":` — the EXCEPTION batch of an implementation error is exempt from the caps -/
+@[reducible] def unaryBudgetOnlyOnSuccess : Bool := {_b(bg["only_on_success"])}
 /-- the three Falcon resources route every outcome through `_set_http_status` / `_set_error_response`; the stream
 resources reset `_current_response_status` to OK before dispatch and read it after -/
 def resourceLayerRecognised : Bool := {_b(all(rl.values()))}
